@@ -365,6 +365,10 @@ def state_distribution(circ, max_branches=256):
             stack.append(bits + (0,))
             stack.append(bits + (1,))
             continue
+        if used != len(bits):
+            # every scripted coin was pushed because a run with the same prefix drew it: a run that now consumes fewer coins than scripted
+            # means the compilation is not a function of the drawn outcomes, and the enumerated "distribution" would be meaningless
+            raise AssertionError(f"state oracle: {len(bits)} measurement outcomes scripted but {used} drawn (compilation not deterministic in its coins)")
         n_br += 1
         if n_br > max_branches:
             return None
